@@ -422,9 +422,16 @@ func runChf(line string, t []string) string {
 		store.putDelay = time.Duration(ms) * time.Millisecond
 		store.mu.Unlock()
 		return "ok"
+	case "outage":
+		// the account-balance / rating server becomes unreachable (down: dial error; silent: no answer) or reachable again
+		if len(t) != 3 || !setOutage(t[1], t[2]) {
+			return "bad-op"
+		}
+		return "ok"
 	case "reset":
-		// a fresh world: subscribers, accounts, sequence numbers
+		// a fresh world: subscribers, accounts, sequence numbers; every server reachable
 		cleanupCdrFiles()
+		clearOutages()
 		self := chf_context.GetSelf()
 		self.UePool.Range(func(k, v interface{}) bool { self.UePool.Delete(k); return true })
 		// zero the sequence counters by name (reflection: the harness must keep building when a
@@ -513,6 +520,10 @@ func fmtReq(supi, nf string, cid, seq int, uri, one int, trigs []string, usages 
 }
 
 func genChf(o genOpts, w *bufio.Writer) {
+	if o.mode == "comply" {
+		genChfComply(o, w)
+		return
+	}
 	r := &rng{s: o.seed}
 	lsn := 0
 	// the generator mirrors the session id rule (supi+nf+counter) only to address requests; the real
@@ -618,10 +629,14 @@ func genChf(o genOpts, w *bufio.Writer) {
 			}
 		}
 		steps := 6 + r.intn(10)
+		var outages outageGen
 		for i := 0; i < steps && done < o.n; i++ {
 			s := sess[r.intn(len(sess))]
 			if !s.live {
 				continue
+			}
+			if o.mode == "" {
+				outages.step(r, o, w)
 			}
 			var usages []string
 			nrg := 1 + r.intn(2)
